@@ -1,6 +1,6 @@
 """Valve A2S family: how the generic property runners drive it."""
 
-FAMILY = dict(
+FAMILY = dict(send_units=3, 
     name="valve", nargs=4, gen="valve", retries=3, port=0, gather=2, decode_property="C02", entry="valve",
     describe=("all 32 EDF flag subsets, both info layouts, The Ship, ROR2, 0-3 challenge rounds, single / Source split / "
               "GoldSrc split at random cut points"),
@@ -10,7 +10,8 @@ KIND = {0: "54", 1: "55", 2: "56"}
 
 
 def fragment_groups(case):
-    """C08: [(conn, start, count)] of consecutive split datagrams of one reply (same split id)"""
+    """C08: [(conn, start, count)] of the split datagrams of one reply: consecutive datagrams with the split header
+    and the same split id whose packet numbers keep rising (a new reply may reuse the id)"""
     groups = []
     for ci, ds in enumerate(case.script):
         if ds == "X":
@@ -18,9 +19,13 @@ def fragment_groups(case):
         i = 0
         while i < len(ds):
             d = ds[i]
-            if d is not None and d[:4] == b"\xfe\xff\xff\xff" and len(d) >= 8:
-                j = i
-                while j < len(ds) and ds[j] is not None and ds[j][:8] == d[:8]:
+            if d is not None and d[:4] == b"\xfe\xff\xff\xff" and len(d) >= 10:
+                j = i + 1
+                # Source: byte 9 = number; GoldSrc: high nibble of byte 8 = number.  Numbers were generated 0, 1, 2, …
+                def number(x):
+                    return (x[9], x[8] >> 4)
+                while j < len(ds) and ds[j] is not None and ds[j][:8] == d[:8] and len(ds[j]) >= 10 \
+                        and (number(ds[j])[0] == number(ds[j - 1])[0] + 1 or number(ds[j])[1] == number(ds[j - 1])[1] + 1):
                     j += 1
                 if j - i >= 2:
                     groups.append((ci, i, j - i))
